@@ -56,6 +56,15 @@ def main(argv=None):
         i, n = map(int, args.shard.split('/'))
         core.load_repo()
         run = core.Run(pid, args.tier, seed, i, n)
+        if os.environ.get('VERIF_LOG_DEBUG') == '1':
+            # the application around the library logs everything (to nowhere)
+            import logging
+            logging.getLogger().addHandler(logging.NullHandler())
+            logging.getLogger().setLevel(logging.DEBUG)
+        run.seen('shard_environments', '%s%s' % (
+            'python -O' if sys.flags.optimize else 'python',
+            ', root logger at DEBUG'
+            if os.environ.get('VERIF_LOG_DEBUG') == '1' else ''))
         mod.run(run)
         with open(args.frag, 'w') as fh:
             json.dump(run.to_fragment(), fh)
